@@ -54,6 +54,10 @@ struct Shared {
     /// instantiations of each builder call's service factory so far, and (cid, ordinal of the instance that served it)
     insts: Mutex<[usize; 16]>,
     served_gen: Mutex<Vec<(u64, usize, usize)>>,
+    /// op S: clients that send nothing and close their sending half at once — known by their local port; and the ones of them
+    /// whose client has gone away for good (op f), which ends their service call
+    silent: Mutex<std::collections::HashMap<u16, u64>>,
+    released: Mutex<Vec<u64>>,
 }
 
 /// A user service whose readiness can be switched off from outside: `poll_ready` is Pending while `Shared::blocked` is set.
@@ -166,7 +170,8 @@ fn resolve_widx(w: usize, respawned: bool) -> usize {
 /// the synchronous part of `Service::call`
 fn enter(call: usize, w: usize, nworkers: usize, sh: &Arc<Shared>) -> (usize, Active) {
     let _ = call;
-    let w = resolve_widx(w, w >= nworkers);
+    // with one worker the index is 0 whatever the start-up (under an actix System the thread names carry no index)
+    let w = if nworkers == 1 { 0 } else { resolve_widx(w, w >= nworkers) };
     if sh.poison.swap(false, Ordering::SeqCst) {
         sh.panicked.lock().unwrap().push(w);
         panic!("poisoned connection");
@@ -175,21 +180,42 @@ fn enter(call: usize, w: usize, nworkers: usize, sh: &Arc<Shared>) -> (usize, Ac
     (w, Active(sh.clone(), w))
 }
 
-async fn serve<S: AsyncReadExt + AsyncWriteExt + Unpin>(mut s: S, call: usize, w: usize, act: Active, sh: Arc<Shared>, gen: usize) -> Result<(), ()> {
-    // the client sends its id as 8 bytes right after connecting
+async fn serve<S: AsyncReadExt + AsyncWriteExt + Unpin>(mut s: S, peer: Option<u16>, call: usize, w: usize, act: Active, sh: Arc<Shared>, gen: usize) -> Result<(), ()> {
+    // the client sends its id as 8 bytes right after connecting — or nothing at all (op S): then it is known by its port
     let mut idb = [0u8; 8];
+    let mut silent = false;
     let cid = match s.read_exact(&mut idb).await {
         Ok(_) => u64::from_le_bytes(idb),
-        Err(_) => u64::MAX,
+        Err(_) => match peer.and_then(|p| sh.silent.lock().unwrap().get(&p).copied()) {
+            Some(c) => {
+                silent = true;
+                c
+            }
+            None => u64::MAX,
+        },
     };
     sh.served_gen.lock().unwrap().push((cid, call, gen));
     sh.served.lock().unwrap().push((cid, call, w));
     let _ = s.write_all(b"k").await;
-    let mut buf = [0u8; 16];
-    loop {
-        match s.read(&mut buf).await {
-            Ok(0) | Err(_) => break,
-            Ok(_) => {}
+    if silent {
+        // its sending half is closed already: the call lasts until the client is gone for good
+        while !sh.released.lock().unwrap().contains(&cid) {
+            actix_rt::time::sleep(Duration::from_millis(5)).await;
+        }
+    } else {
+        let mut buf = [0u8; 16];
+        loop {
+            match s.read(&mut buf).await {
+                Ok(0) | Err(_) => break,
+                Ok(n) if buf[..n].contains(&b'p') => {
+                    // op z: the call ends by a panic inside its future — the runtime contains it, the worker lives on, and whatever the
+                    // server holds for this connection is dropped while the thread unwinds
+                    drop(act);
+                    sh.done.lock().unwrap().push(cid);
+                    panic!("service future of connection {cid} panics");
+                }
+                Ok(_) => {}
+            }
         }
     }
     drop(act);
@@ -333,7 +359,8 @@ fn start(w: usize, l: usize, chain: &[String], dir: &PathBuf, sh: &Arc<Shared>, 
                         fn_service(move |s: TcpStream| {
                             let _ = &slow;
                             let (w, act) = enter(call, w, nworkers, &sh3);
-                            serve(s, call, w, act, sh3.clone(), gen)
+                            let peer = s.peer_addr().ok().map(|a| a.port());
+                            serve(s, peer, call, w, act, sh3.clone(), gen)
                         }),
                         sh4,
                         call,
@@ -354,7 +381,7 @@ fn start(w: usize, l: usize, chain: &[String], dir: &PathBuf, sh: &Arc<Shared>, 
                         fn_service(move |s: UnixStream| {
                             let _ = &slow;
                             let (w, act) = enter(call, w, nworkers, &sh3);
-                            serve(s, call, w, act, sh3.clone(), gen)
+                            serve(s, None, call, w, act, sh3.clone(), gen)
                         }),
                         sh4,
                         call,
@@ -630,6 +657,22 @@ fn run_once(line: &str, dir: &PathBuf, quiet: Duration) -> String {
                     Err(e) => note.push_str(&format!("!connect:{}", e.kind())),
                 }
             }
+            b'S' => {
+                // a client that sends nothing and closes its sending half at once (a server-speaks-first protocol): still a connection
+                // that must reach its listener's service; TCP listeners only (the service recognises it by its port)
+                let tok: usize = rest.parse().unwrap();
+                cid += 1;
+                match connect(&run.addrs[tok]) {
+                    Ok(c) => {
+                        if let Client::Tcp(s) = &c {
+                            sh.silent.lock().unwrap().insert(s.local_addr().unwrap().port(), cid);
+                            let _ = s.shutdown(std::net::Shutdown::Write);
+                        }
+                        clients.push((cid, c));
+                    }
+                    Err(e) => note = format!("!connect:{}", e.kind()),
+                }
+            }
             b'A' => {
                 // an abortive client: connects, sends its id and is gone at once — TCP: SO_LINGER 0, so the close sends a RST while
                 // the connection still waits in the listen backlog; Unix: a plain close.  accept() still returns such a connection
@@ -647,6 +690,28 @@ fn run_once(line: &str, dir: &PathBuf, quiet: Duration) -> String {
                     Err(e) => note = format!("!connect:{}", e.kind()),
                 }
             }
+            b'z' => {
+                // the client asks its service call to end by a panic inside the service future
+                let id: u64 = rest.parse().unwrap();
+                if let Some(p) = clients.iter().position(|(c, _)| *c == id) {
+                    let (_, mut c) = clients.remove(p);
+                    multi += c.extra_greetings();
+                    let w = match &mut c {
+                        Client::Tcp(s) => s.write_all(b"p"),
+                        Client::Uds(s) => s.write_all(b"p"),
+                    };
+                    if w.is_err() {
+                        // a silent client (op S) has closed its sending half: its call ends the ordinary way
+                        sh.released.lock().unwrap().push(id);
+                    }
+                    if !wait_until(|| sh.done.lock().unwrap().contains(&id)) {
+                        note = "!service-call-did-not-end".into();
+                    }
+                    drop(c);
+                } else {
+                    note = "!no-such-client".into();
+                }
+            }
             b'f' | b'F' => {
                 // F: close that client whether or not its service call has started (used by probes built from this side's state)
                 let lenient = op.as_bytes()[0] == b'F';
@@ -655,6 +720,7 @@ fn run_once(line: &str, dir: &PathBuf, quiet: Duration) -> String {
                     let (_, mut c) = clients.remove(p);
                     multi += c.extra_greetings();
                     drop(c);
+                    sh.released.lock().unwrap().push(id);
                     let started = sh.served.lock().unwrap().iter().any(|(n, _, _)| *n == id);
                     if (!lenient || started) && !wait_until(|| sh.done.lock().unwrap().contains(&id)) {
                         note = "!service-call-did-not-end".into();
@@ -753,6 +819,7 @@ fn run_once(line: &str, dir: &PathBuf, quiet: Duration) -> String {
                         for (_, c) in clients.iter_mut() {
                             multi += c.extra_greetings();
                         }
+                        sh.released.lock().unwrap().extend(clients.iter().map(|(c, _)| *c));
                         clients.clear();
                         match grx.recv_timeout(BOUND) {
                             Ok(true) => "held",
@@ -831,6 +898,7 @@ fn run_once(line: &str, dir: &PathBuf, quiet: Duration) -> String {
     for (_, c) in clients.iter_mut() {
         multi += c.extra_greetings();
     }
+    sh.released.lock().unwrap().extend(clients.iter().map(|(c, _)| *c));
     drop(clients);
     drop(poisoned);
     let stopped = graceful.is_some() || block_on(run.handle.stop(false)).is_some();
